@@ -1,6 +1,7 @@
 package main
 
 import (
+	"math"
 	"fmt"
 	"strings"
 	"sync"
@@ -516,6 +517,49 @@ func checkC03(e *Env) {
 		}
 	})
 
+	// values of Language outside the ten supported ones have no list, so no token belongs to
+	// "that language's list" and nothing is a well-formed mnemonic under them (the property's
+	// mechanism: unsupported languages have no map). Valid sentences of every list are validated
+	// under the values next to the declared range, under values that alias a supported one after
+	// truncation to 8, 16 or 32 bits, and under the extremes of int.
+	var unsup []int64
+	for v := int64(-12); v < 0; v++ {
+		unsup = append(unsup, v)
+	}
+	for v := int64(ref.NLang); v <= 32; v++ {
+		unsup = append(unsup, v)
+	}
+	for k := int64(0); k < ref.NLang; k++ {
+		unsup = append(unsup, 1<<8+k, 1<<16+k, 1<<32+k, -(1<<32)+k, math.MinInt64+k, math.MaxInt64-k)
+	}
+	unsup = append(unsup, 99, 100, 127, 128, 255, 1000, 10000, math.MaxInt32, math.MinInt32, 1<<62)
+	unsupCalls, unsupAccepted := 0, 0
+	e.RunStream(StreamOpts{Drv: drv}, func(emit func(*Item)) {
+		r := rng.New(e.Seed, "C03-unsupported")
+		for lang := 0; lang < ref.NLang; lang++ {
+			for vi, v := range unsup {
+				w := e.Model.Words(r.Bytes(ref.EntSizes[(lang+vi)%5]), lang)
+				emit(&Item{Op: plan.Op{Fn: "chkval", L: v, S: hxs(strings.Join(w, " "))}, Exp: lang})
+			}
+		}
+	}, func(it *Item, r *plan.Res) {
+		if failure(r) != "" {
+			notJudged.Inc("unsupported-language-value")
+			return
+		}
+		gmu.Lock()
+		unsupCalls++
+		gmu.Unlock()
+		if r.Err == nil || (r.B != nil && *r.B) {
+			gmu.Lock()
+			unsupAccepted++
+			gmu.Unlock()
+			e.Violate(&Violation{What: fmt.Sprintf("Language(%d) is not a supported language and has no list, yet CheckMnemonic=%q IsMnemonicValid=%v for a valid %s sentence: %s", it.Op.L, errText(r.Err), r.B != nil && *r.B, ref.Names[it.Exp.(int)], preview(it.Op.Str())),
+				Ops: []plan.Op{it.Op}, Expected: "rejected: no token belongs to the list of an unsupported language", Observed: r})
+		}
+	})
+	classes.Add("valid-sentence-under-unsupported-language-value", unsupCalls)
+
 	// histories: the same hostile queries right after the valid sentence they were derived
 	// from was accepted in the same process (a memo of "the last valid sentence" would
 	// answer some of them from memory)
@@ -621,7 +665,7 @@ func checkC03(e *Env) {
 		"evaluations":                        stats.Ops,
 		"distinct_nontrivial":                refRejected.Len(),
 		"calls_repeated_under_concurrency":   concCalls,
-		"rule":                               "cases are strings built from reference-valid sentences: all 2048 final words for fixed prefixes (random, zero-leading, all-ones, all-zero), all 2047 substitutions at every position, transpositions, word-count changes 0..30, sentences and words of the other nine lists, case/affix/white-space damage, checksum-bit flips and seeded byte fuzz incl. invalid UTF-8; each is sent to CheckMnemonic and IsMnemonicValid; further, histories in one process (a valid sentence accepted, then the same string under other languages, in other spellings, with one word changed or appended); non-trivial = the independent reference validator (CPython NFKD, split on white space, golden lists, SHA-256) rejects the string, so acceptance would be a violation; distinct by (string, language)",
+		"rule":                               "cases are strings built from reference-valid sentences: all 2048 final words for fixed prefixes (random, zero-leading, all-ones, all-zero), all 2047 substitutions at every position, transpositions, word-count changes 0..30, sentences and words of the other nine lists, valid sentences of every list under unsupported Language values (next to the declared range, aliases of supported values after truncation to 8/16/32 bits, extremes of int), case/affix/white-space damage, checksum-bit flips and seeded byte fuzz incl. invalid UTF-8; each is sent to CheckMnemonic and IsMnemonicValid; further, histories in one process (a valid sentence accepted, then the same string under other languages, in other spellings, with one word changed or appended); non-trivial = the independent reference validator (CPython NFKD, split on white space, golden lists, SHA-256) rejects the string, so acceptance would be a violation; distinct by (string, language)",
 		"samples":                            smp.List(),
 		"validations_by_class":               classes.Map(),
 		"accepted_by_class":                  acceptedByClass.Map(),
